@@ -134,13 +134,3 @@ def run(ctx):
                  'a decoder that does not know which parities are erased solves with a zero-filled placeholder')
     xorrules.reconstruct_fallback_rule(P, r)
     r.require_min(2)
-
-    if ctx.tier == 'thorough':
-        for fl in ('portable',):
-            Pp = ctx.program(fl)
-            r = ctx.rule('R05e.' + fl, f'index spaces in the {fl} build flavour')
-            xorrules.index_space_rule(Pp, r)
-            r = ctx.rule('R02e.' + fl, f'sentinel tests in the {fl} build flavour')
-            xorrules.sentinel_rule(Pp, r)
-            r = ctx.rule('R05g.' + fl, f'XOR kernel coverage in the {fl} build flavour')
-            xorrules.kernel_rule(Pp, r)
